@@ -1,7 +1,7 @@
 (* C09 - W3C trace-context propagation: the property theorems, stated in full about the
    executable model (coq/C09/Model.v over coq/C14/Model.v) and the positional grammar of
    coq/C09/Spec.v.  Proofs are in coq/C09/Proofs*.v; nothing here but statements. *)
-From V Require Import C09.Glue C09.ProofsHex C09.ProofsSplit C09.ProofsExtract C09.ProofsInject C09.ProofsMeets.
+From V Require Import C09.Glue C09.ProofsHex C09.ProofsSplit C09.ProofsExtract C09.ProofsInject C09.ProofsMeets C09.ProofsTs.
 
 (* --- sentence 1a: injecting any valid span context (16-byte trace id, 8-byte span id, any flags
    byte) writes a traceparent of exactly the level-1 form - 55 bytes, "00-", dashes at 2/35/52,
@@ -26,6 +26,12 @@ Print Assumptions inject_tracestate.
 Theorem flags_table_lower_case : forall f : byte, flags_hex f = byte_to_lower_hex f.
 Proof. exact flags_hex_is_lower_hex. Qed.
 Print Assumptions flags_table_lower_case.
+
+(* ... and so are the tables of TraceId/SpanId::ToLowerBase16 (trace_id.h, span_id.h) *)
+Theorem id_tables_lower_case : forall l : bytes,
+  id_hex kTraceIdHexTable l = to_lower_hex l /\ id_hex kSpanIdHexTable l = to_lower_hex l.
+Proof. exact ProofsHex.id_tables_lower_case. Qed.
+Print Assumptions id_tables_lower_case.
 
 (* --- sentence 1b: extracting the injected headers yields a remote context with the same trace id,
    span id, flags byte; its trace state is the re-parsed ToHeader rendering ... *)
@@ -151,3 +157,31 @@ Theorem model_meets_spec_inj : forall (l : list tok) (c : span_ctx),
   parse_case l = Some (CInj c) -> run_spec l (run_model l) = [].
 Proof. exact ProofsMeets.model_meets_spec_inj. Qed.
 Print Assumptions model_meets_spec_inj.
+
+(* --- closed with C14's theorems (coq/C14/Proofs.v: header_roundtrip, from_header_wf): for every
+   valid context whose trace state is a valid one (every key passes IsValidKey, every value
+   IsValidValue, at most kMaxKeyValuePairs = 32 members) the round trip returns the SAME trace state *)
+Theorem inject_extract_roundtrip_full : forall c : span_ctx,
+  length (c_tid c) = 16 /\ length (c_sid c) = 8 -> ctx_valid c = true ->
+  Forall (fun e : entry => is_valid_key (fst e) = true /\ is_valid_value (snd e) = true) (c_ts c) /\
+    length (c_ts c) <= kMaxKeyValuePairs ->
+  exists tp ts, inject c = Some (tp, ts) /\
+    extract tp (match ts with Some h => h | None => [] end) =
+    Some (mk_ctx (c_tid c) (c_sid c) (c_flags c) true (c_ts c)).
+Proof. exact ProofsTs.inject_extract_roundtrip_full. Qed.
+Print Assumptions inject_extract_roundtrip_full.
+
+Theorem roundtrip_meets_spec_full : forall c : span_ctx,
+  length (c_tid c) = 16 /\ length (c_sid c) = 8 ->
+  Forall (fun e : entry => is_valid_key (fst e) = true /\ is_valid_value (snd e) = true) (c_ts c) /\
+    length (c_ts c) <= kMaxKeyValuePairs ->
+  spec_roundtrip_ok c (let car := inject_into [] c in
+                       extract (carrier_get "traceparent" car) (carrier_get "tracestate" car)) true = [].
+Proof. exact ProofsTs.roundtrip_meets_spec_full. Qed.
+Print Assumptions roundtrip_meets_spec_full.
+
+(* the central theorem, unconditional: on every case line that parses (INJ, EXT and RT), the
+   extracted SPEC checker reports nothing about the model's observation *)
+Theorem model_meets_spec : forall l : list tok, parse_case l <> None -> run_spec l (run_model l) = [].
+Proof. exact ProofsTs.model_meets_spec. Qed.
+Print Assumptions model_meets_spec.
